@@ -26,7 +26,7 @@ def seeded():
     notes0 = json.load(open(f"{ROOT}/seeded/NOTES.json")) if os.path.exists(f"{ROOT}/seeded/NOTES.json") else {}
     agent = [k for k in metas if re.match(r"C\d+-[A-Z]$", k)]
     rev = [k for k in metas if k.startswith("revert-")]
-    harm = [k for k in metas if k.startswith("harmless-")]
+    harm = [k for k in metas if k.startswith("harmless")]
     def caught(k):
         d = metas[k]
         own = d.get("property")
